@@ -831,6 +831,55 @@ def r6_supplied_history_wins(ctx, rid):
         raise AnalysisError(f"{rid}: cannot decide how to_func chooses between the supplied and the default history (unrecognised form)")
 
 
+def r7_step_mode_travels_together(ctx, rid):
+    """Whether `t` counts steps or time is the PAIR (dt, dt_adapt): `t*dt` exactly when dt is given and dt_adapt is false.  A function
+    that receives both and calls another function of the package that also takes both must hand over both - with only `dt` forwarded
+    the callee falls back to its default `dt_adapt` and converts (or does not convert) the time argument of the history read on its
+    own.  (`**kwargs` of the caller cannot carry `dt_adapt` when it is a named parameter of the caller.)"""
+    n = 0
+    for f in ctx.repo.functions.values():
+        if not (f.module.rel.startswith("pyrates/backend/") or f.module.rel in ("pyrates/ir/circuit.py",)):
+            continue
+        if not {"dt", "dt_adapt"} <= set(f.params):
+            continue
+        for c in walk_shallow(f.node):
+            if not isinstance(c, ast.Call):
+                continue
+            targets, how = ctx.cg.resolve_call(f, c)
+            targets = [g for g in targets if {"dt", "dt_adapt"} <= set(g.params)]
+            if not targets or how in ("external",) or str(how).startswith("unresolved"):
+                continue
+            g = targets[0]
+            kws = {k.arg for k in c.keywords if k.arg}
+            pos = [p for p in g.params if p not in ("self", "cls")][:len(c.args)]
+            given = kws | set(pos)
+            n += 1
+            label = f"call {norm(c)[:60]}"
+            if "dt" in given and "dt_adapt" not in given:
+                ctx.violation(rid, f, c, f"`{norm(c)[:90]}` forwards `dt` but not `dt_adapt` to {g.qualname}: the callee applies its default step mode "
+                                         f"(dt_adapt={_default_of(g, 'dt_adapt')}) whatever mode this function was called with, so the history is read at "
+                                         f"`t - d` where `t*dt - d` is due (or the reverse)", label=label)
+            elif "dt_adapt" in given and "dt" not in given:
+                ctx.violation(rid, f, c, f"`{norm(c)[:90]}` forwards `dt_adapt` but not `dt` to {g.qualname}", label=label)
+            else:
+                ctx.ok(rid, f, c, f"dt and dt_adapt are handed to {g.qualname} together", label=label, nontrivial=False)
+    if n == 0:
+        ctx.ok(rid, None, None, "no function of the backend hands the step mode (dt, dt_adapt) on to another one (nothing to decide)",
+               construct="backend::step mode forwarding", loc="pyrates/backend/base/base_backend.py:1", nontrivial=False)
+
+
+def _default_of(g, name):
+    a = g.node.args
+    pos = a.posonlyargs + a.args
+    for p, d in zip(pos[len(pos) - len(a.defaults):], a.defaults):
+        if p.arg == name:
+            return ast.unparse(d)
+    for p, d in zip(a.kwonlyargs, a.kw_defaults):
+        if p.arg == name and d is not None:
+            return ast.unparse(d)
+    return "?"
+
+
 RULES = [
     ("C10-R1", r1_add_var_hist, 2),
     ("C10-R2", r2_history_index_is_state_index, 5),
@@ -838,4 +887,5 @@ RULES = [
     ("C10-R4", r4_history_time_units, 6),
     ("C10-R5", r5_default_history_interpolates, 6),
     ("C10-R6", r6_supplied_history_wins, 1),
+    ("C10-R7", r7_step_mode_travels_together, 1),
 ]
